@@ -850,42 +850,63 @@ C12.manifest = {
                  "correspondence vs vm_compute model + exact-arithmetic oracle",
 }
 C13.manifest = {
-    "text": "Verified checker: C13_check_levels_sound proves (unbounded, axiom-free) that a positive verdict of the "
-            "executable check_levels implies: non-empty list of levels, each level a partition of the node set into "
-            "non-empty communities, each level a coarsening of the previous one (every community a union of earlier "
-            "communities). The check evaluates it on the Louvain model's output for every generated case, and the exact "
-            "modularity of the singletons and of every level (modularity_abs, proved equal to Newman's formula in C12) "
-            "must be non-decreasing on single-edge graphs. C13_communities_is_last: louvain_communities = last level. "
-            "Unbounded theorems behind monotonicity and termination: C13_move_gain_newman(_directed) - on any edge "
-            "multiset, moving a node u from u::D to C changes Newman's modularity by exactly (gain C - gain D)/2m "
-            "(directed: /m) where gain is the number the code compares (2*weight(u,X) - gamma*K_X*k_u/m; directed with "
-            "the weights in both directions, i.e. the repair of F16); C13_accepted_move_increases_Q(_directed); "
-            "C13_move_only_if_strictly_better - the model's update_best_com (own community first, ascending id, strict "
-            ">) moves a node only to a community whose gain is positive, maximal and STRICTLY larger than the gain of "
-            "staying; C13_model_move_increases_Q - composing the two: if at a visit the model's bookkeeping agrees with "
-            "the edge multiset (m, degree, Stot of both communities, candidate weights), the move it decides strictly "
-            "increases Newman's modularity; C13_aggregation_preserves_Q - relabelling edges by community, merging parallel edges by summing "
-            "(self-loops kept), smaller name first when undirected, preserves Newman's modularity for the induced "
-            "partition; C13_strict_chain_bounded - a strictly increasing chain inside a finite universe is no longer "
-            "than the universe; C13_move_gain(_directed) - the underlying algebra (field over Q).",
-    "note": "PARTIAL: termination of the local-moving loop and the partition/nesting invariant are NOT proved for the "
-            "model (the model carries explicit fuel; OutOfFuel would be reported as 'does not return'); they are "
-            "established per generated case by the verified checker on the model's output and by the property oracle on "
-            "the implementation's output (non-empty, partition, nested, exact modularity non-decreasing and first level "
-            ">= singletons on single-edge graphs, communities = last level, 2 s watchdog, no panic). Missing link "
-            "between the theorems and the state-level model: the bookkeeping invariants L1-L3 (Stot[c] = K_c, "
-            "weights2com[c] = weight between u and c, generate_graph = aggregate) are not proved, so monotonicity and "
-            "termination of the MODEL do not follow formally; that the model's generate_graph yields exactly the "
-            "list-level aggregate of its edges, and that L1-L3 hold at the end of its first local-moving phase "
-            "(Stot[c] = K_c / Kin_c / Kout_c on the edge multiset), is evaluated on every case (observations 76, 77). Correspondence: the model (transcription of louvain.rs after the repairs) receives the "
-            "shuffle order that the implementation's own rand version derives from the seed (the harness replays "
-            "StdRng::seed_from_u64(seed) + shuffle for every level size) and the levels are compared exactly as sets of "
-            "sets, except on runs where the exact model meets a tie between unequal operands (binary64 may round the "
-            "two sides differently): there only outcome codes and checker verdicts are compared (about 12% of runs). "
-            "NaN weights with weighted=true are outside the modelled domain. Defects F16 (hang on digraphs, fix: "
-            "73bce3f) and F17 (hash-order ties, fix: 6c1ce46) repaired. Axioms: none.",
-    "technique": "verified checker in Coq (check => Prop-level spec) + differential correspondence vs vm_compute "
-                 "model with the real RNG stream + exact-arithmetic oracle with watchdog",
+    "text": "ROUND 2 - proved for the state-level model itself, unbounded and axiom-free. (A) Structural half, every "
+            "input: C13_levels_partition_nested - for every reachable graph state, resolution, threshold, shuffle "
+            "table and fuel, whenever louvain_partitions returns, its levels form a non-empty list, every level is a "
+            "partition of the input node set into non-empty sets, every level coarsens the previous one "
+            "(C13_communities_partition: louvain_communities returns such a partition, never NoPartitions). Route: the "
+            "bookkeeping invariants L1 (node2com u = c <-> u in inner_partition[c]) and L2 (_partition[c] = union of the "
+            "attribute sets of inner_partition[c]) are preserved by every visit whatever community is chosen "
+            "(C13_visit_keeps_L1_L2), generate_graph keeps the attribute sets a partition of the original nodes "
+            "(C13_generate_graph_nodes), convert_graph / convert_back are a bijective renaming. (B) Numeric half, on "
+            "every level graph (coherent single-edge working graph, non-negative real weights; "
+            "C13_first_graph_is_level_graph and the generate_graph theorems show every working graph of the model is "
+            "one), resolution >= 0: C13_bookkeeping - L1, L2 and L3 (Stot / Stot_in / Stot_out = K_of / Kin_of / Kout_of "
+            "of the members on the edge multiset) hold at the end of the local-moving phase for every fuel and order; "
+            "C13_neighbor_weights_between - the candidate weights of a node are the weights between it and each "
+            "community on the edge multiset; C13_visit / C13_accepted_move_increases_modularity - every visit "
+            "returns (no panic) and EVERY accepted move strictly increases Newman's modularity of the level graph, "
+            "undirected and directed, for every visiting order (seed); C13_generate_graph_aggregates - the edge "
+            "multiset of the generated graph is the list-level aggregate (observation 76 as a theorem). (C) "
+            "Termination: C13_local_moving_terminates - consecutive sweeps visit pairwise different node->slot maps "
+            "(strictly increasing modularity, C13_strict_chain_bounded), so the sweep loop stops within n^n sweeps: "
+            "with fuel >= n^n compute_one_level returns Ok; an improving phase leaves an empty slot, so the next level "
+            "has fewer nodes; C13_never_out_of_fuel - with level fuel > N and sweep fuel >= N^N louvain_partitions / "
+            "louvain_communities never return OutOfFuel. (D) Monotonicity: C13_levels_monotone - for every single-edge "
+            "input graph, Newman's modularity of the INPUT graph (its own names and weighted edge list) never decreases "
+            "along the returned levels and the first level is at least as good as the all-singletons partition "
+            "(C13_level_ge_singletons per level; C13_convert_back_preserves_Q: the renaming preserves modularity; "
+            "level graphs are faithful to the first working graph, same total weight, so the constant m is right on "
+            "every level); C13_levels_monotone_partial - the same for every input incl. multigraphs, measured on the "
+            "first working graph. Round 1 (kept): "
+            "C13_check_levels_sound (verified checker), C13_communities_is_last, C13_move_gain_newman(_directed), "
+            "C13_accepted_move_increases_Q(_directed), C13_move_only_if_strictly_better, C13_model_move_increases_Q, "
+            "C13_aggregation_preserves_Q, C13_strict_chain_bounded, C13_move_gain(_directed).",
+    "note": "PARTIAL in two places. (1) Fuel: the theorem is for sweep fuel >= N^N and level fuel > N; the executable "
+            "instance of the model runs with SWEEP_FUEL = 300 and LEVEL_FUEL = 40, which the bound covers for N <= 4 "
+            "only (generated cases go up to n = 10), so OutOfFuel stays a reported per-case outcome ('does not "
+            "return', with the 2 s watchdog on the implementation); no better worst-case bound for Louvain's local "
+            "moving is known. The theorem is '<> OutOfFuel': a Panic/Err remains possible only outside the domain "
+            "(NaN weight with weighted=true, malformed shuffle table) or through the state-level modularity calls, "
+            "whose totality is C12's per-case observation 210. (2) For a MULTIGRAPH input monotonicity is proved on the "
+            "first working graph only (parallel edges collapsed into their sum by to_single_edges); the transport of "
+            "Newman's formula through that collapse is not proved (the oracle measures modularity on the "
+            "implementation's own edge list; observation 75 evaluates the exact check on single-edge inputs, where it "
+            "is now the theorem C13_levels_monotone). Domain of the numeric theorems: resolution >= 0, non-negative real "
+            "weights when weighted=true. The per-case flags are KEPT as ties between model and code: 74 "
+            "(check_levels on the model's output - now a theorem for the model, C13_levels_partition_nested), 75 "
+            "(monotone on the input graph - now C13_levels_monotone), 76 (generate_graph = aggregate - now "
+            "C13_generate_graph_aggregates), 77 (L1-L3 after the first phase - now C13_bookkeeping). Correspondence: "
+            "the model (transcription of louvain.rs after the repairs) receives the shuffle order that the "
+            "implementation's own rand version derives from the seed (the harness replays StdRng::seed_from_u64(seed) + "
+            "shuffle for every level size) and the levels are compared exactly as sets of sets, except on runs where "
+            "the exact model meets a tie between unequal operands (binary64 may round the two sides differently): "
+            "there only outcome codes and checker verdicts are compared (about 12% of runs). The theorems are about "
+            "exact arithmetic; cycling caused purely by binary64 drift in Stot is outside them. Defects F16 (hang on "
+            "digraphs, fix: 73bce3f) and F17 (hash-order ties, fix: 6c1ce46) repaired. Axioms: none.",
+    "technique": "Coq proof (loop invariants L1-L5 over the state-level model, potential-function termination, "
+                 "aggregation) + verified checker + differential correspondence vs vm_compute model with the real RNG "
+                 "stream + exact-arithmetic oracle with watchdog",
 }
 C17.manifest = {
     "text": "Hash-order independence of the seeded Louvain model, unbounded and axiom-free: C17_scan_order_canonical "
